@@ -10,9 +10,9 @@ open Pko.Model.Chunk Pko.Model.ChunkSpec Pko.Model.ChunkRun
 
 variable {Name : Type} [DecidableEq Name]
 
-theorem mem_gcDeletes {st : Store Name} {tmpl : Template Name} {oss : List (Template Name)} {n : Name}
+theorem mem_gcDeletes {st : Store Name} {tmpl : Template Name} {oss : List (OSet Name)} {n : Name}
     (h : n ∈ gcDeletes st tmpl oss) :
-    n ∈ names st ∧ (∃ s, getSlice st n = some s ∧ s.lbl = true) ∧ n ∉ refs tmpl ∧ n ∉ oss.flatMap refs := by
+    n ∈ names st ∧ (∃ s, getSlice st n = some s ∧ s.lbl = true) ∧ n ∉ refs tmpl ∧ n ∉ oss.flatMap osRefs := by
   simp only [gcDeletes, List.mem_filter, Bool.and_eq_true, Bool.not_eq_eq_eq_not, Bool.not_true,
     List.contains_eq_mem, List.mem_append, decide_eq_false_iff_not, not_or] at h
   obtain ⟨hn, hl, h1, h2⟩ := h
@@ -60,7 +60,7 @@ theorem reconcile_deployOk {limit : Nat} {strat : Strategy} {hash : List Obj →
   obtain ⟨ext, fresh, hdec⟩ := chunkPhases_spec (fun objs cs => chunk_concat) hc
   -- facts shared by both endings
   have hdelProps : ∀ n ∈ del, (∃ s, getSlice st1 n = some s ∧ s.lbl = true) ∧
-      n ∉ refs (w'.deploy.getD []) ∧ n ∉ w.objectSets.flatMap refs := by
+      n ∉ refs (w'.deploy.getD []) ∧ n ∉ w.objectSets.flatMap osRefs := by
     rcases hcase with ⟨_, _, rfl, _⟩ | ⟨tmpl, _, _, rfl, hd, _⟩
     · intro n hn; cases hn
     · intro n hn
@@ -187,5 +187,31 @@ theorem specStep_snap (isHashOf : Name → List Obj → Bool) (limit : Nat) (str
 theorem specStep_delos (isHashOf : Name → List Obj → Bool) (limit : Nat) (strat : Strategy) (w : World Name)
     (i : Nat) : specStep isHashOf limit strat (stateOf w) (.delos i) .env = (stateOf (delos w i), true) := by
   simp [specStep, stateOf, delos]
+
+theorem specStep_life (isHashOf : Name → List Obj → Bool) (limit : Nat) (strat : Strategy) (w : World Name)
+    (i : Nat) (l : Life) :
+    specStep isHashOf limit strat (stateOf w) (.life i l) .env = (stateOf (setLife w i l), true) := by
+  simp [specStep, stateOf, setLife]
+
+theorem specStep_markdel (isHashOf : Name → List Obj → Bool) (limit : Nat) (strat : Strategy) (w : World Name)
+    (i : Nat) : specStep isHashOf limit strat (stateOf w) (.markdel i) .env = (stateOf (markDeleting w i), true) := by
+  simp [specStep, stateOf, markDeleting]
+
+/-- Changing lifecycle / deletion state of an ObjectSet changes neither which ObjectSets exist nor their phases. -/
+theorem mem_modifyAt {α : Type} (f : α → α) : ∀ (l : List α) (i : Nat) (x : α),
+    x ∈ modifyAt f l i → x ∈ l ∨ ∃ y ∈ l, x = f y
+  | [], _, x, h => by simp [modifyAt] at h
+  | a :: l, 0, x, h => by
+    simp only [modifyAt, List.mem_cons] at h
+    rcases h with rfl | h
+    · exact Or.inr ⟨a, by simp, rfl⟩
+    · exact Or.inl (by simp [h])
+  | a :: l, i + 1, x, h => by
+    simp only [modifyAt, List.mem_cons] at h
+    rcases h with rfl | h
+    · exact Or.inl (by simp)
+    · rcases mem_modifyAt f l i x h with h | ⟨y, hy, rfl⟩
+      · exact Or.inl (by simp [h])
+      · exact Or.inr ⟨y, by simp [hy], rfl⟩
 
 end Pko.Lemmas.C14
